@@ -46,7 +46,7 @@ Print Assumptions cursor_agree.
 (* regression: the first-round witness against Overlay.get_cursor_coords (TypeError on a top widget without
    cursor); the repaired code reports no cursor, like the rendering *)
 Definition overlay_witness_1 : widget :=
-  Overlay (Leaf (LeafD 0 true 1 0 true true None [] 1)) (border_leaf true)
+  Overlay (Leaf (LeafD 0 true 1 0 true true None [] 1 0)) (border_leaf true)
           GLeft 0 GRelative 100 None 0 0 GTop 0 GRelative 100 None 0 0.
 
 Example overlay_witness_1_repaired :
@@ -104,7 +104,7 @@ Print Assumptions leaf_rects_inside_canvas.
 (* regression: the first-round witness against Overlay hit-testing (height of a flow top widget taken at the
    overlay's full width): the leaf wraps to 2 rows at its width 2; both rows receive the press now *)
 Definition overlay_witness_2 : widget :=
-  Overlay (Leaf (LeafD 0 false 1 3 true true (Some (0, 0)) [] 1)) (border_leaf true)
+  Overlay (Leaf (LeafD 0 false 1 3 true true (Some (0, 0)) [] 1 0)) (border_leaf true)
           GLeft 0 GGiven 2 None 0 0 GTop 0 GPack 0 None 0 0.
 
 Example overlay_witness_2_repaired :
@@ -197,7 +197,7 @@ Print Assumptions filler_margins_nonneg.
 (* ------------------------------------------------------------------------------------------ *)
 (* non-vacuity: the hypotheses are met by an ordinary tree and the model computes                *)
 (* ------------------------------------------------------------------------------------------ *)
-Definition lf (id : Z) (h : Z) (cur : option xy) : widget := Leaf (LeafD id false h 0 true true cur [] 1).
+Definition lf (id : Z) (h : Z) (cur : option xy) : widget := Leaf (LeafD id false h 0 true true cur [] 1 0).
 Definition example_tree : widget :=
   linebox (Pile [(PPack, Columns [(CWeight 1, false, lf 0 1 (Some (1, 0))); (CGiven 3, false, lf 1 2 None)] 0 1 1);
                  (PPack, Padding (lf 2 1 (Some (0, 0))) GCenter 0 GGiven 3 None 1 0)] 1) true true.
@@ -228,6 +228,6 @@ Example example_move_same_columns_focus :
 Proof. vm_compute. auto. Qed.
 
 Example example_place :
-  place (Pile [(PPack, lf 0 2 None); (PGiven 3, Leaf (LeafD 1 true 1 0 false false None [] 1))] 0) (4, None)
+  place (Pile [(PPack, lf 0 2 None); (PGiven 3, Leaf (LeafD 1 true 1 0 false false None [] 1 0))] 0) (4, None)
   = [Placed 0 0 0 (4, None) true false; Placed 1 0 2 (4, Some 3) false false].
 Proof. vm_compute. reflexivity. Qed.
